@@ -3,14 +3,15 @@
 // For generated operation sequences over {store, revert, prune, SetL1Head, WriteRunningEventFilter,
 // graceful / ungraceful restart}, on both state backends, on the memory and the pebblev2 engine, in two
 // universes (short chains from genesis; chains around the real 8192-block bloom-window end):
-//   (a) crash: the image right after EVERY committed write is copied, a fresh Blockchain is opened on
-//       the copy, every index family is decoded and compared with the image the extracted model
-//       predicts for "crash after k batches"; the extracted predicates (consistent, recover_ready,
-//       index_covers) are evaluated on the decoded image; event queries are compared with a naive
-//       receipt scan, the state commitment is recomputed from the tries, the next block is stored.
-//   (b) fault: EVERY commit of every operation is made to fail once; the run continues on the SAME
-//       Blockchain; after every later operation height / reader observations / event queries must
-//       equal the disk's (fresh instance, naive scan); finally the next block must store.
+//
+//	(a) crash: the image right after EVERY committed write is copied, a fresh Blockchain is opened on
+//	    the copy, every index family is decoded and compared with the image the extracted model
+//	    predicts for "crash after k batches"; the extracted predicates (consistent, recover_ready,
+//	    index_covers) are evaluated on the decoded image; event queries are compared with a naive
+//	    receipt scan, the state commitment is recomputed from the tries, the next block is stored.
+//	(b) fault: EVERY commit of every operation is made to fail once; the run continues on the SAME
+//	    Blockchain; after every later operation height / reader observations / event queries must
+//	    equal the disk's (fresh instance, naive scan); finally the next block must store.
 package main
 
 import (
@@ -50,8 +51,9 @@ type Op struct {
 
 type Seq struct {
 	NewState bool   `json:"new_state"`
-	Engine   string `json:"engine"`   // memory | pebble
-	Boundary bool   `json:"boundary"` // start from the 8190-block light chain
+	Engine   string `json:"engine"`         // memory | pebble
+	Boundary bool   `json:"boundary"`       // start from the 8190-block light chain
+	Lazy     bool   `json:"lazy,omitempty"` // restarts do not force the first use of the running filter (lazy.go)
 	Ops      []Op   `json:"ops"`
 }
 
@@ -105,25 +107,28 @@ func (b *blkInfo) enc() string {
 
 // ---------- a running node under test ----------
 type world struct {
-	seq      *Seq
-	c        *hx.Ctx
-	inner    db.KeyValueStore // engine
-	fd       *faultdb.DB
-	t        *chain.Node // node under test (on fd)
-	s        *chain.Node // sequencer: builds the blocks, mirrors t's disk chain (memory engine, no faults)
-	reg      map[string]*blkInfo
-	byNum    map[uint64][]*blkInfo
-	versions map[uint64]uint64
-	classCtr uint64
-	lo       uint64   // decode window: numbers >= lo
-	mops     []string // model ops issued so far
-	dirs     []string
-	initLine string // oracle init line ("" = reset)
-	initWrote bool  // a (re)initialisation of the running filter wrote to the database (unmodelled)
-	big, slots int  // size parameters of the next block to build (consumed by build)
+	seq        *Seq
+	c          *hx.Ctx
+	inner      db.KeyValueStore // engine
+	fd         *faultdb.DB
+	t          *chain.Node // node under test (on fd)
+	s          *chain.Node // sequencer: builds the blocks, mirrors t's disk chain (memory engine, no faults)
+	reg        map[string]*blkInfo
+	byNum      map[uint64][]*blkInfo
+	versions   map[uint64]uint64
+	classCtr   uint64
+	lo         uint64   // decode window: numbers >= lo
+	mops       []string // model ops issued so far
+	dirs       []string
+	initLine   string   // oracle init line ("" = reset)
+	initWrote  bool     // a (re)initialisation of the running filter wrote to the database (unmodelled)
+	big, slots int      // size parameters of the next block to build (consumed by build)
 	torn       []string // pre-commit views that differed from the pre-state (see torn.go)
 	curCase    *Case
-	baseH    int64
+	baseH      int64
+	faultMode  bool // a commit failure is injected during this run (the snapshot-consumed check is skipped)
+	lazy       bool // restarts do not force the first use of the filter (lazy.go)
+	uninit     bool // lazy: the current process has not used its filter yet
 }
 
 func (w *world) opts() []blockchain.Option {
@@ -147,6 +152,10 @@ func (w *world) seqOpts() []blockchain.Option {
 
 func (w *world) newNode(store db.KeyValueStore) *chain.Node {
 	n := chain.NewNode(store, w.seq.NewState, w.opts()...)
+	if w.lazy {
+		w.uninit = true
+		return n
+	}
 	// force the lazy initialisation now: memory := reinit(disk at restart)
 	before := 0
 	if w.fd != nil {
@@ -185,8 +194,11 @@ func baseChain(newState bool) *memory.Database {
 	return base
 }
 
-func newWorld(c *hx.Ctx, seq *Seq) *world {
-	w := &world{seq: seq, c: c, reg: map[string]*blkInfo{}, byNum: map[uint64][]*blkInfo{}, versions: map[uint64]uint64{}, baseH: -1}
+func newWorldLazy(c *hx.Ctx, seq *Seq) *world { return newWorldOpt(c, seq, true) }
+func newWorld(c *hx.Ctx, seq *Seq) *world     { return newWorldOpt(c, seq, false) }
+
+func newWorldOpt(c *hx.Ctx, seq *Seq, lazy bool) *world {
+	w := &world{seq: seq, c: c, reg: map[string]*blkInfo{}, byNum: map[uint64][]*blkInfo{}, versions: map[uint64]uint64{}, baseH: -1, lazy: lazy}
 	var sdb *memory.Database
 	if seq.Boundary {
 		base := baseChain(seq.NewState)
@@ -296,6 +308,15 @@ func (w *world) exec(o Op) error {
 			hx.Fatalf("sequencer cannot build: %v", err)
 		}
 		w.mops = append(w.mops, "S "+strings.ReplaceAll(bi.enc(), ".", " "))
+		if w.uninit {
+			// lazy first use: the initialisation's direct writes happen inside this operation, before its batch
+			w.uninit = false
+			if err := w.t.Store(bi.built); err != nil {
+				_ = w.s.BC.RevertHead()
+				return err
+			}
+			return nil
+		}
 		err, torn := w.guarded(func() error { return w.t.Store(bi.built) })
 		w.noteTorn("store", torn)
 		if err != nil {
@@ -305,6 +326,13 @@ func (w *world) exec(o Op) error {
 		return nil
 	case "R":
 		w.mops = append(w.mops, "R")
+		if w.uninit {
+			w.uninit = false
+			if err := w.t.BC.RevertHead(); err != nil {
+				return err
+			}
+			return w.s.BC.RevertHead()
+		}
 		err, torn := w.guarded(func() error { return w.t.BC.RevertHead() })
 		w.noteTorn("revert", torn)
 		if err != nil {
@@ -324,19 +352,40 @@ func (w *world) exec(o Op) error {
 		return w.t.BC.SetL1Head(&core.L1Head{BlockNumber: o.E, BlockHash: chain.F(o.E), StateRoot: chain.F(o.E)})
 	case "N":
 		w.mops = append(w.mops, "N")
+		w.uninit = false
 		return w.t.BC.WriteRunningEventFilter()
 	case "G":
 		w.mops = append(w.mops, "G")
+		w.uninit = false
 		err := w.t.BC.WriteRunningEventFilter()
 		w.t = w.newNode(w.fd)
+		w.snapshotConsumed("graceful-restart")
 		return err
 	case "U":
 		w.mops = append(w.mops, "U")
 		w.t = w.newNode(w.fd)
+		w.snapshotConsumed("ungraceful-restart")
 		return nil
 	}
 	hx.Fatalf("bad op %q", o.K)
 	return nil
+}
+
+// snapshotConsumed evaluates the statement of C05_snapshot_consumed on the implementation: after a restart
+// and the first use of the new process's running filter (forced by newNode), on a chain with a height, no
+// running-filter snapshot is left in the database. Fault-free runs only (a failed delete leaves it).
+func (w *world) snapshotConsumed(kind string) {
+	if w.faultMode || w.lazy {
+		return
+	}
+	if _, err := core.GetChainHeight(w.inner); err != nil {
+		return // empty chain: the initialiser returns before it reads the snapshot
+	}
+	w.c.Hist["restart-with-height:snapshot-consumed-checked"]++
+	if _, err := core.GetRunningEventFilter(w.inner); err == nil {
+		cs := Case{Seq: *w.seq, Mode: "crash", Index: -1}
+		w.c.Violation("restart:snapshot-not-consumed", fmt.Sprintf("op %d (%s) [%s, newState=%v]: after the restart and the first use of the running filter the persisted snapshot is still in the database (C05_snapshot_consumed)", len(w.mops)-1, kind, w.seq.Engine, w.seq.NewState), cs, false)
+	}
 }
 
 func bloomKeyBytes(k uint64) []byte {
